@@ -293,6 +293,13 @@ class NumpyFuncs:
         st.assume(forall([q], mk_implies(mk_and(q >= 0, num_cmp("<", q, n)), num_cmp(cmpop, ar, a.get(q)))))
         strict = ">" if is_max else "<"
         st.assume(forall([q], mk_implies(mk_and(q >= 0, q < r), num_cmp(strict, ar, a.get(q)))))
+        so = getattr(a, "slice_of", None)
+        if so is not None:
+            # same facts phrased over the positions of the sliced array, so that they match terms base[v]
+            base, off = so
+            v = fresh_int("v")
+            st.assume(forall([v], mk_implies(mk_and(num_cmp("<=", off, v), num_cmp("<", v, num_add(off, n))), num_cmp(cmpop, ar, base.get(v)))))
+            st.assume(forall([v], mk_implies(mk_and(num_cmp("<=", off, v), num_cmp("<", v, num_add(off, r))), num_cmp(strict, ar, base.get(v)))))
         self.note_assumption("numpy: argmax/argmin return the first extremal position of a non-empty array")
         return r
 
